@@ -142,12 +142,17 @@ func runC08(r *Run) {
 		theme := subset("theme", []string{"a", "b", "c", "d"})
 		d1 := subset("data1", []string{"a", "b", "d"})
 		d2 := subset("data2", []string{"a", "c", "d"})
+		if rr.Intn(5) == 0 { // an engine without any config
+			theme, d1, d2 = nil, nil, nil
+		}
 		fm1 := subset("fm1", []string{"a", "b", "Dd"})
 		fm2 := subset("fm2", []string{"c"})
 		mfs := fstest.MapFS{}
-		mfs["theme.yml"] = &fstest.MapFile{Data: []byte(c08Yaml(theme))}
-		mfs["data/1.yml"] = &fstest.MapFile{Data: []byte(c08Yaml(d1))}
-		mfs["data/2.yml"] = &fstest.MapFile{Data: []byte(c08Yaml(d2))}
+		if theme != nil || d1 != nil || d2 != nil {
+			mfs["theme.yml"] = &fstest.MapFile{Data: []byte(c08Yaml(theme))}
+			mfs["data/1.yml"] = &fstest.MapFile{Data: []byte(c08Yaml(d1))}
+			mfs["data/2.yml"] = &fstest.MapFile{Data: []byte(c08Yaml(d2))}
+		}
 		page := func(fm []KV) string {
 			if len(fm) == 0 {
 				return c08Probe()
@@ -171,6 +176,10 @@ func runC08(r *Run) {
 				return Val{K: "ptr", T: "S4", P: &s}
 			}
 		}
+		// one caller-owned map reused for several Fill calls: the engine must never write to it
+		sharedVal := VMap(subset("shared", []string{"a", "b", "c", "Dd"})...).Normalize()
+		shared := sharedVal.Go().(map[string]any)
+		useShared := rr.Bool()
 		readAll := func() { // parents and siblings must be unaffected by what happened to others
 			for i := range tpls {
 				k := Pick(rr, []string{"a", "b", "c", "d"})
@@ -195,8 +204,14 @@ func runC08(r *Run) {
 				obs = append(obs, L())
 			case x < 5:
 				d := mkData().Normalize()
+				var goData any
+				if useShared && d.K == "map" {
+					d, goData = sharedVal, shared
+				} else {
+					goData = d.Go()
+				}
 				ops = append(ops, c08Op{kind: "fill", i: i, data: d})
-				tpls[i].Fill(d.Go())
+				tpls[i].Fill(goData)
 				obs = append(obs, L())
 				readAll()
 			case x < 7:
@@ -271,6 +286,9 @@ func runC08(r *Run) {
 		var descs []string
 		for _, o := range ops {
 			descs = append(descs, o.Desc())
+		}
+		if got, want := FromGo(shared).Obs().Show(), sharedVal.Obs().Show(); got != want {
+			r.Fail("Fill / Assign / Render modified the map the caller passed to Fill", map[string]string{"oracle": "caller-map-untouched"}, map[string]any{"history": descs, "map_now": got, "map_given": want})
 		}
 		files := fmt.Sprintf("[(%s, %s); (%s, %s)]", coqBytes("page1.vuego"), c08Scope(fm1), coqBytes("page2.vuego"), c08Scope(fm2))
 		coq := fmt.Sprintf("{| c_engine := E %s [%s; %s] %s; c_keys := %s; c_ops := %s |}", c08Scope(theme), c08Scope(d1), c08Scope(d2), files, coqList(c08Keys, coqBytes), coqList(ops, c08Op.Coq))
